@@ -1,6 +1,7 @@
 package main
 
 import (
+	"encoding/json"
 	"flag"
 	"fmt"
 	"math/rand"
@@ -29,6 +30,10 @@ func main() {
 	case "worker":
 		workerMain(os.Args[2:])
 	default:
+		if f, ok := extraCmds[os.Args[1]]; ok {
+			f(os.Args[2:])
+			return
+		}
 		if _, ok := registry[os.Args[1]]; ok {
 			checkMain(os.Args[1], os.Args[2:])
 			return
@@ -54,7 +59,17 @@ func probeMain(args []string) {
 	ndata := fs.Int("ndata", 5, "")
 	doMin := fs.Bool("min", false, "")
 	classF := fs.String("class", "", "only show findings whose key contains this")
+	trigTab := fs.Bool("trig", false, "")
+	dense := fs.Bool("dense", false, "")
+	dump := fs.String("dump", "", "")
 	fs.Parse(args)
+	var dumpF *os.File
+	if *dump != "" {
+		dumpF, _ = os.Create(*dump)
+		defer dumpF.Close()
+	}
+	tabAll, tabBad := map[string]int{}, map[string]int{}
+	_ = dense
 	var cfgs []config
 	for _, v := range variantNames {
 		if *only != "" && !strings.Contains(","+*only+",", ","+v+",") {
@@ -86,9 +101,25 @@ func probeMain(args []string) {
 			stats[k] += v
 		}
 		bad := map[string]bool{}
+		var rel []string
+		for _, t := range out.Triggers {
+			switch t {
+			case "waw", "war", "line-reuse-with-store", "shadow-store", "shadow-load", "shadow-div", "mem-near-exit", "mem-before-taken":
+				rel = append(rel, t)
+			}
+		}
+		trig := strings.Join(rel, ",")
+		if *trigTab {
+			for _, c := range cfgs {
+				tabAll[c.V+" ["+trig+"]"]++
+			}
+		}
 		for _, f := range out.Findings {
 			k := f.Config.String() + " " + f.Class + " " + subClass(f.Sub) + " " + f.Site
 			hist[k]++
+			if *trigTab && !bad[f.Config.String()] {
+				tabBad[f.Config.V+" ["+trig+"]"]++
+			}
 			bad[f.Config.String()] = true
 			if shown[k] < *show && (*classF == "" || strings.Contains(k, *classF)) {
 				shown[k]++
@@ -106,6 +137,16 @@ func probeMain(args []string) {
 				fmt.Printf("---- case %d %s: %s %s\n%s\nfinal: %s\nregs: %v\n%s\n", i, f.Config, f.Class, f.Sub, f.Detail, f.Extra, in.Regs, src)
 			}
 		}
+		if *dump != "" {
+			fm := map[string]string{}
+			for _, f := range out.Findings {
+				if _, ok := fm[f.Config.String()]; !ok {
+					fm[f.Config.String()] = f.Class + "/" + subClass(f.Sub) + "/" + f.Site
+				}
+			}
+			b, _ := json.Marshal(map[string]any{"i": i, "trig": out.Triggers, "fail": fm, "steps": out.RefSteps})
+			fmt.Fprintln(dumpF, string(b))
+		}
 		for _, c := range cfgs {
 			if !bad[c.String()] {
 				hist[c.String()+" ok"]++
@@ -113,6 +154,16 @@ func probeMain(args []string) {
 		}
 	}
 	fmt.Println("discarded", disc)
+	if *trigTab {
+		tk := make([]string, 0)
+		for k := range tabAll {
+			tk = append(tk, k)
+		}
+		sort.Strings(tk)
+		for _, k := range tk {
+			fmt.Printf("TRIG %4d/%4d %s\n", tabBad[k], tabAll[k], k)
+		}
+	}
 	ks := make([]string, 0, len(hist))
 	for k := range hist {
 		ks = append(ks, k)
@@ -127,4 +178,47 @@ func probeMain(args []string) {
 		}
 	}
 	fmt.Println()
+}
+
+func init() { extraCmds["one"] = oneMain }
+
+var extraCmds = map[string]func([]string){}
+
+// oneMain: run a program given on stdin on one configuration and print findings.
+func oneMain(args []string) {
+	fs := flag.NewFlagSet("one", flag.ExitOnError)
+	v := fs.String("v", "mvp6-1", "")
+	eu := fs.Int("eu", 2, "")
+	wu := fs.Int("wu", 2, "")
+	regs := fs.String("regs", "", "name=value,...")
+	memsize := fs.Int("memsize", 1024, "")
+	reps := fs.Int("reps", 1, "")
+	fs.Parse(args)
+	b, _ := os.ReadFile("/dev/stdin")
+	in := caseInput{Src: string(b), Mem: make([]int8, *memsize)}
+	for i := range in.Mem {
+		in.Mem[i] = int8(i*7 + 1)
+	}
+	for _, kv := range strings.Split(*regs, ",") {
+		if kv == "" {
+			continue
+		}
+		p := strings.Split(kv, "=")
+		var x int32
+		fmt.Sscan(p[1], &x)
+		in.Regs[regIdx(p[0])] = x
+	}
+	for r := 0; r < *reps; r++ {
+		out := diffCase(in, []config{{V: *v, EU: *eu, WU: *wu}}, diffOpts{Prop: "one", Lockstep: true})
+		if out.Discarded {
+			fmt.Println("discarded:", out.RefErr)
+			return
+		}
+		if len(out.Findings) == 0 {
+			fmt.Println("ok; triggers", out.Triggers)
+		}
+		for _, f := range out.Findings {
+			fmt.Printf("%s %s %s %s: %s | final: %s\n", f.Config, f.Class, f.Sub, f.Site, f.Detail, f.Extra)
+		}
+	}
 }
